@@ -100,6 +100,7 @@ PROPS["C03"] = {
         K("c03_history_invariant_step", "inductive invariant with ghost history: accepted => higher than everything accepted before the tick preceding the last tick; newer-than-seen is inside the window"),
         K("c03_all_slots_tick", "every_second applies the tick to all four key slots"),
         K("c03_peercrypto_tick_reaches_core", "PeerCrypto::every_second drives the tick of the connection's core"),
+        K("c03_peercrypto_tick_on_rotation_tick", "... also on the tick on which a rotation message goes out (early return with a Reply)"),
     ],
 }
 
@@ -257,15 +258,25 @@ _rr = [0, 1, 4, 6, 8, 15, 16]
 _rd = [0, 1, 2, 6, 10, 17, 18, 20]
 PROPS["C16"] = {
     "files": ["src/types.rs", "src/messages.rs", "src/crypto/rotate.rs"],
-    "functions": ["Range::write_to", "Range::read_from", "Address::read_from", "Address::read_from_fixed", "Address::write_to"],
+    "functions": ["Range::write_to", "Range::read_from", "Address::read_from", "Address::read_from_fixed", "Address::write_to",
+                  "RotationMessage::write_to", "RotationMessage::read_from"],
     "bounds": "claims (Range): address lengths {0,1,4,6,8,15,16} x all prefixes x all bytes for the round trip; decoder totality "
-              "on arbitrary byte strings of total length {0,1,2,6,10,17,18,20}",
-    "outside": "the handshake codec (InitMsg: does not complete under symbolic execution); 64 KiB stale tails",
+              "on arbitrary byte strings of total length {0,1,2,6,10,17,18,20}; rotation messages: round trip for key lengths {0,1,31,32}, "
+              "decoder totality on arbitrary strings of length {0,8,9,10,12,24} (length fields up to 255 unwound)",
+    "outside": "the node-information codec (NodeInfo: encode_peer_list_part exhausts 16 GB even on concrete addresses) and the "
+               "handshake codec (InitMsg does not complete under symbolic execution); unknown-part skipping; 64 KiB stale tails",
     "assumptions": STD_ASSUME,
     "obligations": [K("c16_range_roundtrip_len%02d" % n, "Range encode->decode identity, %d-byte address" % n,
                       ("quick", "thorough") if n in (0, 4, 16) else T) for n in _rr] +
                    [K("c16_range_decode_total%02d" % n, "Range::read_from total and exact on arbitrary %d bytes" % n,
-                      ("quick", "thorough") if n in (0, 2, 6, 18) else T) for n in _rd],
+                      ("quick", "thorough") if n in (0, 2, 6, 18) else T) for n in _rd] +
+                   [K("c16_rotation_rt_p32_c32", "RotationMessage encode->decode identity (proposal + confirmation, 32-byte keys)"),
+                    K("c16_rotation_rt_p32_c0", "same, no confirmation"),
+                    K("c16_rotation_rt_p0_c0", "same, empty keys", T), K("c16_rotation_rt_p1_c31", "same, 1- and 31-byte keys", T),
+                    K("c16_rotation_decode_total12", "RotationMessage::read_from total and exact on arbitrary 12 bytes (length fields up to 255)"),
+                    K("c16_rotation_decode_total10", "10 bytes"), K("c16_rotation_decode_total00", "0 bytes", T),
+                    K("c16_rotation_decode_total08", "8 bytes", T), K("c16_rotation_decode_total09", "9 bytes", T),
+                    K("c16_rotation_decode_total24", "24 bytes", T)],
 }
 
 # ------------------------------------------------------------------------------------------------------------ C06
@@ -351,5 +362,34 @@ PROPS["C18"] = {
           role="c18_password", timeout={"quick": 900, "thorough": 2400}, mem_gb=16),
         K("c18_password_keys_match_printed_keys_len2", "same, all 2-character ASCII passwords", T, role="c18_password", timeout={"thorough": 2400}, mem_gb=24),
         K("c18_password_keys_match_printed_keys_empty", "same, empty password", role="c18_password"),
+    ],
+}
+
+# ------------------------------------------------------------------------------------------------------------ C07
+PROPS["C07"] = {
+    "files": ["src/crypto/rotate.rs", "src/crypto/core.rs", "src/crypto/common.rs"],
+    "functions": ["RotationState::process_message", "RotationState::cycle", "RotationState::new", "RotationState::create_key",
+                  "RotationState::derive_key", "CryptoCore::rotate_key"],
+    "bounds": "ONE operation of the real rotation state machine per obligation, from a symbolic state (ids, key material, flags): "
+              "receipt of a proposal, the confirming cycle, receipt of a confirmation, receipt of a stale/duplicate message, "
+              "two cycles after a lost proposal; key slot installation (rotate_key) for ids r + 4k, all k < 2^32",
+    "outside": "the property's quantifier - all schedules of both machines to depth 12 with loss/duplication/reordering, and the "
+               "probe datagram after every step: a three-operation run of the two machines in one harness exhausts 24 GB. The "
+               "obligations decide the per-step facts the schedule argument rests on (receiver installs before it confirms, both "
+               "ends derive the same key under the same id, duplicates are ignored, a lost proposal is re-sent unchanged); they "
+               "do not compose them over schedules. 'at least every second interval' (timing in PeerCrypto::every_second) is not decided",
+    "assumptions": RING_ASSUME[1:] + [
+        "ring::agreement replaced by a commutative model: public = private XOR constant, shared(a, pub(b)) = pub(a) XOR pub(b); "
+        "'same key material' is asserted through this identity; private keys are arbitrary (RNG model)",
+    ],
+    "obligations": [
+        K("c07_receiver_half_proposal_becomes_pending", "proposal with a higher id: fresh key pair, shared key + public value kept pending, nothing installed, sending key never switched"),
+        K("c07_receiver_half_cycle_installs_then_confirms", "confirming cycle: pending key installed for RECEIVING under the next even id, exactly its public value sent as confirmation under that id"),
+        K("c07_sender_half_switches_to_confirmed_key", "confirmation with a higher id: start SENDING with shared(own proposal, confirmation) under exactly that id"),
+        K("c07_stale_or_duplicate_message_is_ignored", "message id not above the own id: ignored, state untouched"),
+        K("c07_lost_message_is_resent_unchanged", "lost proposal: next cycle arms the timeout, the one after re-sends the same proposal under the same id"),
+        K("c04_rotate_slot0_send", "rotate_key installs into slot id mod 4 and switches the sending slot when asked"),
+        K("c04_rotate_slot1_recv", "rotate_key (receive only) leaves the sending slot alone"),
+        K("c04_rotate_slot2_send", "slot 2", T), K("c04_rotate_slot3_recv", "slot 3", T),
     ],
 }
